@@ -92,7 +92,15 @@ class DateTime:
 
     @staticmethod
     def from_datetime(dt: datetime.datetime) -> "DateTime":
-        return DateTime(round(dt.timestamp() * 1e6) * 1000)
+        # exact integer arithmetic: dt.timestamp() is a float and cannot hold the
+        # microseconds of instants far from 1970 (a naive dt is local time, as for timestamp())
+        if dt.tzinfo is None:
+            dt = dt.astimezone()
+        delta = dt - datetime.datetime(1970, 1, 1, tzinfo=datetime.timezone.utc)
+        return DateTime(
+            (delta.days * 86_400 + delta.seconds) * 1_000_000_000
+            + delta.microseconds * 1_000
+        )
 
     @staticmethod
     def parse(s: str) -> "DateTime":
